@@ -64,7 +64,7 @@ pub mod packed {
     pub struct SendBlocksProofV1Reader<'a>(pub &'a Msg);
     impl<'a> SendBlocksProofV1Reader<'a> {
         /// molecule: reading the two extra fields of a table that has fewer than two is out of bounds
-        pub fn new_unchecked(m: &'a Msg) -> Self { assert!(m.extra_fields >= 2, "PANIC: SendBlocksProofV1Reader over a table without the two extra fields (slice index out of range)"); SendBlocksProofV1Reader(m) }
+        pub fn new_unchecked(m: &'a Msg) -> Self { assert!(m.extra_fields >= 2, "REAL-PANIC: SendBlocksProofV1Reader over a table without the two extra fields (slice index out of range)"); SendBlocksProofV1Reader(m) }
         pub fn blocks_uncles_hash(&self) -> ListR<Byte32> { ListR(self.0.uncles) }
         pub fn blocks_extension(&self) -> ListR<BytesOpt> { let mut v = Vec::new(); let mut i = 0; while i < self.0.exts.len { v.push(BytesOpt(self.0.exts.buf[i])); i += 1; } ListR(v) }
     }
